@@ -870,8 +870,11 @@ class C20(World):
         if exc_name:
             ctx.count("exc:" + exc_name)
         ctx.count("outcome:" + outcome)
-        ctx.reach(cfg["fmt"], kind, route, transport, exc_name or "returned")
-        ctx.event("attempt", cfg["fmt"], kind, route, transport, outcome, exc_name)
+        # a request for gigabytes is refused (MemoryError) or granted and measured, depending on how much address space the worker
+        # has left under RLIMIT_AS - that is history of the process, not of the run: both are logged as one class
+        over = outcome == "memory-error" or res["peak"] > budget_mem(total)
+        ctx.reach(cfg["fmt"], kind, route, transport, "over-memory" if over else (exc_name or "returned"))
+        ctx.event("attempt", cfg["fmt"], kind, route, transport, "over-memory" if over else outcome, None if over else exc_name)
         label = f"{cfg['fmt']} {kind} via {route}/{transport} ({total} bytes)"
         if relaxed and outcome != "step-budget" and res["peak"] <= 20 * budget_mem(total) and (res["steps"] > budget_steps(total) or res["peak"] > budget_mem(total)):
             # the recorded finding reproduced with its predicted behaviour: it ends, at a polynomial cost
